@@ -825,7 +825,9 @@ bool BW_MidiSequencer::buildSmfTrackData(const std::vector<std::vector<uint8_t> 
             m_currentPosition.track[tk].pos = m_trackData[tk].begin();
     }
 
-    if(gotGlobalLoopStart && !gotGlobalLoopEnd)
+    // Without a loopEnd point the loop ends where the song does
+    const bool loopEndsWithSong = gotGlobalLoopStart && !gotGlobalLoopEnd;
+    if(loopEndsWithSong)
     {
         gotGlobalLoopEnd = true;
         loopEndTicks = ticksSongLength;
@@ -845,6 +847,11 @@ bool BW_MidiSequencer::buildSmfTrackData(const std::vector<std::vector<uint8_t> 
     }
 
     buildTimeLine(temposList, loopStartTicks, loopEndTicks);
+
+    // The last row of the longest track may carry an earlier time (trailing silence is skipped) than the last
+    // events of other tracks: the time of the song's end is the time of the loop end then, not that row's
+    if(loopEndsWithSong && !m_loop.invalidLoop)
+        m_loopEndTime = m_fullSongTimeLength - m_postSongWaitDelay;
 
     return true;
 }
